@@ -889,11 +889,11 @@ func runC35(c *core.Ctx) error {
 		cfgs = append(cfgs, mcCfg{name: "exhaustive-1", maxPkts: 1, shapes: allShapes, cryptos: allCryptos,
 			everyK: []int{1, 2, 3, 5, 7, 11, 13, 16, 17}, singleCuts: "all", corrEveryK: []int{0, 1, 16}, lenMasks: []int{1, 2, 8, 16, 64, 255}, padKs: []int{1, 3, 4, 5},
 			coverage: true, all: true, workers: 6})
-		cfgs = append(cfgs, mcCfg{name: "exhaustive-2", maxPkts: 2, shapes: []int{1000, 1001, 1003, 1004, 1016, 1040, 3008, 3012, 4008}, cryptos: []int{0, 1, 11, 12},
+		cfgs = append(cfgs, mcCfg{name: "exhaustive-2", maxPkts: 2, shapes: []int{1000, 1003, 1016, 1040, 3008, 4008}, cryptos: []int{1, 11, 12},
 			everyK: []int{1, 7, 16}, singleCuts: "class", corrEveryK: []int{0}, lenMasks: []int{1, 16}, padKs: []int{3, 4}, all: true, workers: 8})
 		cfgs = append(cfgs, mcCfg{name: "sampled-3", maxPkts: 3, shapes: allShapes, cryptos: allCryptos,
 			everyK: []int{1, 3, 5, 16, 17}, singleCuts: "all", corrEveryK: []int{0, 1}, lenMasks: []int{1, 16, 255},
-			padKs: []int{1, 2, 3, 4, 5}, plans: append(samplePlans(rnd, allShapes, allCryptos, 120, 3, 3), padPlans(allShapes, []int{1, 2, 3, 4, 5}, []int{0, 1, 2})...), all: true, workers: 8})
+			padKs: []int{1, 2, 3, 4, 5}, plans: append(samplePlans(rnd, allShapes, allCryptos, 100, 3, 3), padPlans(allShapes, []int{1, 2, 3, 4, 5}, []int{0, 1, 2})...), all: true, workers: 8})
 	}
 	for _, m := range cfgs {
 		if err := runMC(c, pl, st, m, nproc); err != nil {
